@@ -531,6 +531,57 @@ func pagerCase(text string, w, h int, scrolls []int) {
 		bad("rows", fmt.Sprintf("rows are %q, the text breaks into %q", gotRows, wantRows))
 		return
 	}
+	// blank lines are lines too: between two rows the pager shows as many blank rows as the text has empty (or
+	// space-only) lines there - plus at most one more after a row that is exactly full (the pager's layout yields an
+	// empty line when a line feed follows a full row). Not judged when a cluster is wider than the window or the text has spaces.
+	tooWide := strings.Contains(text, " ") // (a row of spaces that fills the width cannot be told from an empty row on the screen)
+	for _, c := range vaxis.Characters(text) {
+		tooWide = tooWide || c.Width > w
+	}
+	if !tooWide {
+		var wantSeq, gotSeq []string
+		for _, l := range refLines(text, w) {
+			wantSeq = append(wantSeq, strip(l))
+		}
+		var gotW []int
+		for _, row := range all {
+			var gs []string
+			cw := 0
+			for _, c := range vaxis.Characters(strings.TrimRight(row, " ")) {
+				gs = append(gs, c.Grapheme)
+				cw += c.Width
+			}
+			gotSeq = append(gotSeq, strip(gs))
+			gotW = append(gotW, cw)
+		}
+		for len(wantSeq) > 0 && wantSeq[len(wantSeq)-1] == "" {
+			wantSeq = wantSeq[:len(wantSeq)-1]
+		}
+		for len(gotSeq) > 0 && gotSeq[len(gotSeq)-1] == "" {
+			gotSeq = gotSeq[:len(gotSeq)-1]
+		}
+		i, j := 0, 0
+		extra := false // one extra empty line may follow: the last non-blank row was full
+		for i < len(wantSeq) && j < len(gotSeq) {
+			switch {
+			case wantSeq[i] == gotSeq[j]:
+				if gotSeq[j] != "" {
+					extra = gotW[j] >= w
+				}
+				i++
+				j++
+			case gotSeq[j] == "" && extra:
+				extra = false
+				j++
+			default:
+				i, j = len(wantSeq)+1, len(gotSeq)+1
+			}
+		}
+		if i != len(wantSeq) || j != len(gotSeq) {
+			bad("blank-lines", fmt.Sprintf("rows are %q, the text has the lines %q (an empty line of the text is a line of the pager)", gotSeq, wantSeq))
+			return
+		}
+	}
 	// offset clamp and window content: 0 <= Offset <= max(0, L-h) where L, the number of layout lines, is
 	// between the reference line count and that count plus one per line feed (a full row followed by a
 	// line feed yields an empty line in the pager's layout)
